@@ -90,8 +90,25 @@ def verify_contract(repo: str, con: Any, contracts_by_target: dict[str, Any], mo
         def run_path() -> Any:
             interp.reset_path()
             args = {name: interp.fresh_resolved(desc, name, is_input=True) for name, desc in params.items()}
+            pre_done = False
+            if requires is not None and con.__dict__.get("derived"):
+                wanted = [a.arg for a in interp.sidecar_function(requires).node.args.args]
+                if all(w in args for w in wanted):
+                    pre = interp.truth(interp.eval_named(requires, args))
+                    ctx.assume(pre if not isinstance(pre, bool) else z3.BoolVal(pre))
+                    pre_done = True
+            for name, fn in (con.__dict__.get("derived") or {}).items():
+                # a parameter built from the others by running REAL constructors (code mode)
+                funcv = interp.sidecar_function(fn)
+                names = [a.arg for a in funcv.node.args.args]
+                try:
+                    args[name] = interp.inline(funcv, [args[n] for n in names], {})
+                except PyExc as exc:
+                    raise PathPruned() from exc
+            for name in con.__dict__.get("ghost_params", []):
+                pass
             interp.entry_values = dict(args)
-            if requires is not None:
+            if requires is not None and not pre_done:
                 pre = interp.truth(interp.eval_named(requires, args))
                 ctx.assume(pre if not isinstance(pre, bool) else z3.BoolVal(pre))
             clause_guard: dict[str, list] = {}
@@ -117,7 +134,8 @@ def verify_contract(repo: str, con: Any, contracts_by_target: dict[str, Any], mo
                 raise PathPruned()
             old = ObjV("_Old", {name: snapshot(value) for name, value in args.items()})
             try:
-                value = interp.inline(fv, [], dict(args), def_line)
+                ghost = set(con.__dict__.get("ghost_params", []))
+                value = interp.inline(fv, [], {k: v for k, v in args.items() if k not in ghost}, def_line)
                 outcome: tuple = ("return", value)
             except PyExc as exc:
                 outcome = ("raise", exc.etype, exc.line, exc.info)
